@@ -181,7 +181,7 @@ type Scenario struct {
 	AcceptTailTemp   int
 	AcceptPermanent  bool
 	ListenerCloseErr bool
-	NoWaitServe      bool // start the actors without waiting for Serve to register its listener
+	NoWaitServe      bool        // start the actors without waiting for Serve to register its listener
 	X                interface{} // property-specific expectation data
 	Strata           []string    // labels for evidence (which strata this run belongs to)
 }
